@@ -310,6 +310,48 @@ def plan (q : Q2) : Plan2 :=
     semi1 := semiAllowed q.kind   -- ON is a single top-level equality: IN filter unless the join is RIGHT / FULL
     kind := q.kind, c0 := q.c0, c1 := q.c1, w := q.w, limit := q.limit }
 
+/-! ### decidable side conditions of the fragment theorem (`Props/C08.lean: C08_partial_model`) -/
+
+/-- a pushed comparison that is never TRUE on an all-NULL row (`col <op> const`); `col IS NULL` is not -/
+def Expr.nullRejecting : Expr → Bool
+  | .cmpC _ _ _ _ => true
+  | _ => false
+
+/-- everything pushed into the fetch of table `side` rejects the all-NULL row -/
+def pushedNullSafe (side : Nat) (w : Option Expr) : Bool := (pushedFor side w).all Expr.nullRejecting
+
+/-- the operand(s) that the join pads with NULLs receive only NULL-rejecting filters -/
+def nullSafe (q : Q2) : Bool :=
+  match q.kind with
+  | .inner => true
+  | .left | .leftOuter => pushedNullSafe 1 q.w
+  | .right => pushedNullSafe 0 q.w
+  | .full => pushedNullSafe 0 q.w && pushedNullSafe 1 q.w
+
+/-- a conjunction of column-vs-constant / IS NULL tests on table `side` only -/
+def Expr.pureConj (side : Nat) : Expr → Bool
+  | .cmpC _ s _ _ => s == side
+  | .isNull s _ => s == side
+  | .and a b => a.pureConj side && b.pureConj side
+  | _ => false
+
+/-- WHERE is absent or completely evaluated inside the fetch of the first table -/
+def whereLeftOnly : Option Expr → Bool
+  | none => true
+  | some e => e.pureConj 0
+
+def JoinKind.isLeft : JoinKind → Bool
+  | .left => true
+  | .leftOuter => true
+  | _ => false
+
+/-- LIMIT is either not pushed, or pushed below a LEFT join with nothing left to filter or group afterwards -/
+def limitSound (q : Q2) : Bool :=
+  (plan q).limit0.isNone || (q.kind.isLeft && whereLeftOnly q.w && !q.groupBy && !q.having)
+
+/-- the exact (decidable) hypothesis of `C08_partial_model` -/
+def planSound (q : Q2) : Bool := nullSafe q && limitSound q
+
 /-- step-by-step execution of the skeleton per the step docstrings -/
 def execPlan (p : Plan2) (db : DB) : List (TRow × TRow) :=
   let f0 := limitOf p.limit0 (db.t0.filter fun l => holdsAll p.push0 l [])
